@@ -180,6 +180,27 @@ package shutterservice
 //@   ensures forall i :: 0 <= i && i < len(ret0) ==> ret0[i] != nil
 //@   invariant fresh(filteredEvents) || len(filteredEvents) == 0
 //@   invariant forall j :: 0 <= j && j < len(filteredEvents) ==> filteredEvents[j] != nil
+//@   ensures forall i :: 0 <= i && i < len(ret0) ==> ret0[i].Eon <= 9223372036854775807
+//@   ensures len(ret0) <= len(events)
+//@   invariant len(filteredEvents) <= rangeindex + 1
+//@   invariant forall j :: 0 <= j && j < len(filteredEvents) ==> filteredEvents[j].Eon <= 9223372036854775807
+//@
+//@ // C15 rollback: a rollback to block b keeps block b (it is canonical) and deletes everything above it; a
+//@ // reset writes a position p and deletes from p+1 - so no stored event is ever above the recorded position
+//@ func (*EventTriggerRegisteredEventProcessor).RollbackEvents
+//@   ensures ret0 == nil ==> (evcount("delTrigRegs") == old(evcount("delTrigRegs")) + 1 && evarg("delTrigRegs", 0, old(evcount("delTrigRegs"))) == int64(toBlock + 1))
+//@ func (*TriggerProcessor).RollbackEvents
+//@   ensures ret0 == nil ==> (evcount("delFired") == old(evcount("delFired")) + 1 && evarg("delFired", 0, old(evcount("delFired"))) == int64(toBlock + 1))
+//@ func (*RegistrySyncer).resetSyncStatus
+//@   requires s != nil && s.DBPool != nil
+//@   ensures evcount("setIdSynced") <= old(evcount("setIdSynced")) + 1
+//@   ensures evcount("setIdSynced") == old(evcount("setIdSynced")) + 1 ==> (evcount("delIdRegs") == old(evcount("delIdRegs")) + 1 && evarg("delIdRegs", 0, old(evcount("delIdRegs"))) == int64(evarg("setIdSynced", 0, old(evcount("setIdSynced"))) + 1))
+//@   ensures numReorgedBlocks == 0 ==> (ret0 == nil && evcount("setIdSynced") == old(evcount("setIdSynced")) && evcount("delIdRegs") == old(evcount("delIdRegs")))
+//@   opt frame = off
+//@ func (*MultiEventSyncer).rollback
+//@   requires s != nil && s.DBPool != nil && (forall k Str :: has(s.Processors, k) ==> s.Processors[k] != nil)
+//@   ensures ret0 == nil ==> (evcount("setMultiSynced") == old(evcount("setMultiSynced")) + 1 && evarg("setMultiSynced", 0, old(evcount("setMultiSynced"))) == toBlock && evcount("commit") == old(evcount("commit")) + 1)
+//@   opt frame = off
 //@ func (*RegistrySyncer).syncRange
 //@   requires s != nil && s.DBPool != nil && s.ExecutionClient != nil && s.Contract != nil
 //@   ensures ret0 == nil ==> evcount("commit") == old(evcount("commit")) + 1
